@@ -3,7 +3,10 @@
 and seeded/<id>/meta.json) + the per-property as-built notes (A.7, from props/<id>.json)."""
 import json, os, subprocess, glob
 root = '/verif'
-a = open(f'{root}/docs/as_built.md').read().rstrip() + '\n\n'
+full = open(f'{root}/docs/as_built.md').read()
+k = full.find('### A.8')
+tail = full[k:].rstrip() + '\n\n' if k >= 0 else ''
+a = (full[:k] if k >= 0 else full).rstrip() + '\n\n'
 # A.6
 mx = json.load(open(f'{root}/seeded/matrix.json')) if os.path.exists(f'{root}/seeded/matrix.json') else {}
 checks = [c['property_id'] for c in json.load(open(f'{root}/MANIFEST.json'))['checks']]
@@ -40,6 +43,19 @@ if os.path.exists(notes):
 a += "\n"
 # A.7
 a += subprocess.run(['python3', f'{root}/tools/gen_as_built_props.py'], capture_output=True, text=True).stdout
+a += tail
+# A.2: refresh the numeric columns of the table from the evidence files of the last clean run
+import re
+def fix(m):
+    pid = m.group(1)
+    try:
+        ev = json.load(open(f'{root}/evidence/{pid}.json'))['coverage']
+        pr = json.load(open(f'{root}/props/{pid}.json'))
+        return f"| {pid} | {len(ev['functions_under_contract'])} | {ev['obligations']} | {len(pr['canaries'])} |"
+    except Exception:
+        return m.group(0)
+i2, i3 = a.index('### A.2'), a.index('### A.3')
+a = a[:i2] + re.sub(r'\| (C\d\d) \| [^|]* \| [^|]* \| [^|]* \|', fix, a[i2:i3]) + a[i3:]
 d = open(f'{root}/DESIGN.md').read()
 B, E = '<!-- SECTION-A-BEGIN -->\n', '<!-- SECTION-A-END -->\n'
 if B in d:
